@@ -1,6 +1,7 @@
 package types
 
 import (
+	"math"
 	"time"
 
 	sdk "github.com/cosmos/cosmos-sdk/types"
@@ -75,12 +76,13 @@ func CalculateDuration(deposit sdk.Coin, flowRate int64) int64 {
 	// no point if the deposit value is zero - e.g. if re-calculating from a new flow rate
 	// of an existing stream
 	if deposit.Amount.GT(sdk.NewIntFromUint64(0)) {
-		// calculate duration in seconds
-		decFlowRate := sdk.NewDecFromInt(sdk.NewIntFromUint64(uint64(flowRate)))
-		decDeposit := sdk.NewDecCoinFromCoin(deposit)
-		decDuration := decDeposit.Amount.QuoTruncateMut(decFlowRate)
-		// note: decimal values are rounded down, e.g. 2628008.9 to just 2628008.
-		return decDuration.TruncateInt64()
+		// calculate duration in seconds. Integer division: decimal values are rounded down,
+		// e.g. 2628008.9 to just 2628008. (TruncateInt64 panics for durations beyond int64)
+		duration := deposit.Amount.Quo(sdk.NewInt(flowRate))
+		if !duration.IsInt64() {
+			return math.MaxInt64
+		}
+		return duration.Int64()
 	}
 
 	return 0
@@ -131,9 +133,9 @@ func CalculateValidatorFee(valFee sdk.Dec, amountToClaim sdk.Coin) (sdk.Coin, sd
 	var finalClaimCoin sdk.Coin
 
 	if valFee.GT(sdk.NewDecFromInt(sdk.NewIntFromUint64(0))) {
-		decCoin := sdk.NewDecCoinFromCoin(amountToClaim)
-		valFeeAmount := decCoin.Amount.Mul(valFee).TruncateInt64()
-		valFeeCoin = sdk.NewCoin(amountToClaim.Denom, sdk.NewIntFromUint64(uint64(valFeeAmount)))
+		// TruncateInt64 panics once amount x fee >= 2^63 (about 9.2 tokens of an 18 decimal denom at 100%)
+		valFeeAmount := valFee.MulInt(amountToClaim.Amount).TruncateInt()
+		valFeeCoin = sdk.NewCoin(amountToClaim.Denom, valFeeAmount)
 		finalClaimCoin = amountToClaim.Sub(valFeeCoin)
 	} else {
 		valFeeCoin = sdk.NewCoin(amountToClaim.Denom, sdk.NewIntFromUint64(0))
